@@ -6,6 +6,7 @@ import (
 	"errors"
 	"fmt"
 	"math/bits"
+	"path/filepath"
 	"strings"
 )
 
@@ -74,7 +75,20 @@ func OpenFile(f string) (*Database, error) {
 	if err != nil {
 		return nil, err
 	}
-	return newDatabase(l, f+"-journal")
+	return newDatabase(l, journalName(f))
+}
+
+// SQLite names the journal after the database file itself: symbolic links
+// are followed and the name is made absolute when the file is opened. A
+// journal left by a crashed writer sits next to the real file, not next to
+// the link we might have been given.
+func journalName(f string) string {
+	if real, err := filepath.EvalSymlinks(f); err == nil {
+		if abs, err := filepath.Abs(real); err == nil {
+			f = abs
+		}
+	}
+	return f + "-journal"
 }
 
 func newDatabase(l pager, journal string) (*Database, error) {
